@@ -40,6 +40,10 @@ type poolSpec struct {
 	Inst     int
 	Shots    int // > 0: shared `once` schedule with exactly that many tokens; 0: plenty, run ends by end of ammo (passes: 1)
 	Result   map[string]interface{}
+	// rps-per-instance pools: RPS / Startup are the lists written under `rps:` / `startup:` ([] = one `once` part)
+	PerInstance bool
+	RPS         []interface{}
+	Startup     []interface{}
 	Clients         int    // shared-client.client-number (0: 2)
 	ReflectPort     int    // reflect_port (0: reflection on the target itself)
 	Timeout         string // gun timeout ("" = 120s)
@@ -105,6 +109,15 @@ func (ps poolSpec) configMap() map[string]interface{} {
 		"result":  res,
 		"rps":     []interface{}{map[string]interface{}{"type": "once", "times": times}},
 		"startup": []interface{}{map[string]interface{}{"type": "once", "times": ps.Inst}},
+	}
+	if len(ps.RPS) > 0 {
+		pool["rps"] = ps.RPS
+	}
+	if len(ps.Startup) > 0 {
+		pool["startup"] = ps.Startup
+	}
+	if ps.PerInstance {
+		pool["rps-per-instance"] = true
 	}
 	if ps.YAMLShape {
 		return map[string]interface{}{"pools": yamlShape([]interface{}{pool})}
